@@ -219,7 +219,14 @@ func (c *Collection) chunks() int {
 	}
 
 	max, _ := c.fill.Max()
-	return int(commit.ChunkAt(max) + 1)
+	chunks := int(commit.ChunkAt(max) + 1)
+
+	// A chunk no commit has touched yet holds nothing but reservations of in-flight
+	// (or failed) inserts, it has no commit ID and no data to write.
+	if chunks > len(c.commits) {
+		chunks = len(c.commits)
+	}
+	return chunks
 }
 
 // readChunk acquires appropriate locks for a chunk and executes a read callback.
